@@ -51,6 +51,7 @@ class Backend(object):
         self.on_need = None            # callable(): let the device produce more inbuf
         self.kernel_active = True
         self.gone = False              # the device was unplugged: descriptor reads fail too
+        self.partial_timeout = False   # the next bulkRead times out after part of the data arrived: USBErrorTimeout with the bytes in .received
         self.fired = []                # backend call indices at which an injected error was raised
         self.ndevices = 1              # how many ADB devices hang on the bus (ports [2, 3], [2, 4], ...); they all report the same serial number
 
@@ -128,6 +129,14 @@ class Handle(object):
             b.on_need()
         if not b.inbuf:
             raise USBErrorTimeout('no data')
+        if b.partial_timeout:
+            b.partial_timeout = False
+            k = max(1, min(length, len(b.inbuf)) - 1)
+            e = USBErrorTimeout('timed out after %d bytes' % k)
+            e.received = bytearray(b.inbuf[:k])           # python-libusb1 hands over what did arrive
+            del b.inbuf[:k]
+            b.fired.append(-1)                           # the backend did report something: the error the transport raises has a cause
+            raise e
         k = min(length, len(b.inbuf))
         if b.short_read:
             k = max(1, min(k, b.short_read(length, len(b.inbuf))))
